@@ -298,71 +298,150 @@ def enum_uses(repo, m, fn, param) -> Dict[str, Set[str]]:
 
 
 def check_coercion(ctx):
+    """C11.C, decided by execution: the argument array serialize_request produces for a request is read back by the executor's
+    _get_create_request (array access, purpose id and app id modelled), and the LinkLayerCreate it returns is handed to the consumer
+    request_to_qlink_1_0 (the qlink_interface library modelled as a recorder that accepts what the library accepts).  For every
+    combination of request type, pair count, time limit, rotations and random bases:
+      - every field of the request holds what the SDK asked for - the executor's own remote node id and purpose id, the SDK's type,
+        count, time limit, rotations and bases - and the namedtuple default where the SDK left the slot undefined;
+      - a field whose default is an enumeration member holds a member of that enumeration (never the bare integer of the array);
+      - the consumer converts the request without raising, and what it hands to the link layer carries the same values.
+    LinkLayerCreate has one default per field (read from the executed definition)."""
+    import itertools
+    from .. import circuit as C
+    from ..model import EnumMember
     repo, ev = ctx.repo, ctx.ev
     ex = repo.get_class(EXE, "Executor")
     g = ex.methods.get("_get_create_request")
     if g is None:
         raise AnalysisError("_get_create_request not found")
     ctx.fn("Executor._get_create_request")
-    coerced: Dict[str, str] = {}
-    for st in A.body_nodes(g):
-        if isinstance(st, ast.Assign) and isinstance(st.targets[0], ast.Subscript) and A.norm(st.targets[0].value) == "kwargs" and isinstance(st.targets[0].slice, ast.Constant):
-            f = st.targets[0].slice.value
-            v = st.value
-            if isinstance(v, ast.Call) and len(v.args) == 1 and A.norm(v.args[0]) == f"kwargs['{f}']".replace("'", "'"):
-                c = repo.resolve_class(ex.module, v.func)
-                if c is not None and ev.is_enum(c):
-                    coerced[f] = c.name
-            elif isinstance(v, ast.Call) and len(v.args) == 1 and isinstance(v.args[0], ast.Subscript) and A.norm(v.args[0].value) == "kwargs" and isinstance(v.args[0].slice, ast.Constant) and v.args[0].slice.value == f:
-                c = repo.resolve_class(ex.module, v.func)
-                if c is not None and ev.is_enum(c):
-                    coerced[f] = c.name
-    # consumers
-    uses: Dict[str, Set[str]] = {}
-    qc = repo.module(QC)
-    r2q = qc.functions.get("request_to_qlink_1_0")
-    if r2q is None:
-        raise AnalysisError("request_to_qlink_1_0 not found")
+    be = repo.module(BE)
+    ser = be.functions.get("serialize_request")
+    qcm = repo.module(QC)
+    r2q = qcm.functions.get("request_to_qlink_1_0")
+    if ser is None or r2q is None:
+        raise AnalysisError("serialize_request / request_to_qlink_1_0 not found")
     ctx.fn("qlink_compat.request_to_qlink_1_0")
-    for k, v in enum_uses(repo, qc, r2q, A.param_names(r2q)[0]).items():
-        uses.setdefault(k, set()).update(v)
-    dce = ex.methods.get("_do_create_epr")
-    if dce is not None:
-        for var in [k for k, v in A.single_defs(dce).items() if isinstance(v, ast.Call) and A.call_name(v) == "_get_create_request"]:
-            for k, v in enum_uses(repo, ex.module, dce, var).items():
-                uses.setdefault(k, set()).update(v)
-    fields = tuple_fields(ctx, "LinkLayerCreate")
-    # defaults that are enum members show the intended type as well
-    ctx.anchor("C11.C", "LinkLayerCreate fields used as enums by consumers", len([f for f in uses if f in fields]), 3)
-    for f in sorted(uses):
-        if f not in fields:
-            continue
-        ctx.check("C11.C", f"_get_create_request:{f}:coerced-to-enum", f in coerced,
-                  f"consumers treat LinkLayerCreate.{f} as an enum ({sorted(uses[f])}) but _get_create_request leaves the integer that came from the argument array: "
-                  f"the link-layer conversion fails (or compares an int with an enum member)", ex.loc(g), sample={"field": f, "used_as": sorted(uses[f]), "coerced_to": coerced.get(f)})
-    # _get_create_request zips (arguments, fields, defaults): zip stops at its shortest operand, so there must be one default per field,
-    # and the default at a field's position must be of that field's kind
-    qm = repo.module("netqasm.qlink_compat")
-    dval = None
-    for st in qm.tree.body:
-        if isinstance(st, ast.Assign) and A.norm(st.targets[0]) == "LinkLayerCreate.__new__.__defaults__":
-            dval = ev.try_eval(st.value, qm)
-    n_def = len(dval) if isinstance(dval, (tuple, list)) else None
+
+    def member(cls_name, name):
+        c = qcm.classes[cls_name]
+        return EnumMember(c.qualname, name, ev.enum_members(c)[name])
+
+    class Arrays:
+        _nqsa_model = True
+
+        def __init__(self, arr):
+            self.arr, self.asked = arr, []
+
+        def __getitem__(self, k):
+            self.asked.append(k)
+            if isinstance(k, tuple) and len(k) == 2 and k[0] == 3 and isinstance(k[1], slice):
+                return list(self.arr)[k[1]]
+            raise C.EvalRaise("IndexError", f"the argument array is read as [{k!r}]; the request lives at address 3")
+
+    class Lib:
+        """qlink_interface: request classes record their keyword arguments; RandomBasis accepts the integers of its members"""
+        _nqsa_model = True
+
+        def __init__(self, name):
+            self.name = name
+
+        def __call__(self, *a_, **k_):
+            if self.name == "RandomBasis":
+                if len(a_) != 1 or isinstance(a_[0], bool) or not isinstance(a_[0], int) or a_[0] not in (0, 1, 2, 3):
+                    raise C.EvalRaise("ValueError", f"{a_!r} is not a valid RandomBasis")
+                return ("qlink.RandomBasis", a_[0])
+            return (self.name, dict(k_))
+
+    bad = {}
+    n = 0
+    fields = None
+    try:
+        for tpn, number, max_time, rl, rr, rbl, rbr in itertools.product(("K", "M", "R"), (1, 3), (0, 17), ((0, 0, 0), (1, 2, 3)), ((0, 0, 0), (4, 5, 6)), (None, "XZ", "NONE"), (None, "CHSH")):
+            n += 1
+            label = f"type {tpn}, number={number}, max_time={max_time}, rotations {rl} / {rr}, random bases {rbl} / {rbr}"
+            params = C.Obj(None, {"remote_node_id": 2, "epr_socket_id": 1, "number": number, "post_routine": None, "sequential": False, "time_unit": member("TimeUnit", "MILLI_SECONDS"),
+                                  "max_time": max_time, "expect_phi_plus": True, "min_fidelity_all_at_end": None, "max_tries": None,
+                                  "random_basis_local": member("RandomBasis", rbl) if rbl else None, "random_basis_remote": member("RandomBasis", rbr) if rbr else None,
+                                  "rotations_local": rl, "rotations_remote": rr})
+            tp = member("EPRType", tpn)
+            sc = C.Scenario()
+            sc.max_depth = 30
+            sc.method_overrides = {"_get_purpose_id": lambda o_, *a_, **k_: 7, "_get_app_id": lambda o_, *a_, **k_: 0}
+            for nm in ("ReqCreateAndKeep", "ReqMeasureDirectly", "ReqReceive", "RandomBasis", "ReqRemoteStateCreate"):
+                sc.externals[f"qlink_interface.{nm}"] = Lib(nm)
+            try:
+                arr = C.Interp(repo, ev, sc, None).call_function(be, ser, [tp, params], {})
+            except C.EvalRaise:
+                continue  # (judged by C11.S)
+            arrays = Arrays(arr)
+            o = C.object_from_init(repo, ex, {"_app_arrays": {0: arrays}}, kind="self")
+            try:
+                req = C.Interp(repo, ev, sc, ex).call_function(ex.module, g, [5, 2, 1, 3], {}, self_obj=o)
+            except C.EvalRaise as ex_:
+                bad.setdefault("request:built-for-every-argument-array", f"{label}: _get_create_request raises {ex_.exc_name} ({ex_})")
+                continue
+            if not (isinstance(req, tuple) and hasattr(req, "_fields")):
+                bad.setdefault("request:built-for-every-argument-array", f"{label}: _get_create_request returns {req!r}")
+                continue
+            fields = req._fields
+            defaults = dict(zip(fields[len(fields) - len(type(req).__new__.__defaults__ or ()):], type(req).__new__.__defaults__ or ()))
+            rt = qcm.classes["RequestType"]
+            want = {"remote_node_id": 2, "purpose_id": 7, "type": EnumMember(rt.qualname, tpn, ev.enum_members(rt)[tpn]), "number": number}
+            if max_time != 0:
+                want.update({"time_unit": params.fields["time_unit"].value, "max_time": max_time})
+            if tpn in ("M", "R"):
+                if rl != (0, 0, 0):
+                    want.update({"rotation_X_local1": rl[0], "rotation_Y_local": rl[1], "rotation_X_local2": rl[2]})
+                if rr != (0, 0, 0):
+                    want.update({"rotation_X_remote1": rr[0], "rotation_Y_remote": rr[1], "rotation_X_remote2": rr[2]})
+                if rbl:
+                    want["random_basis_local"] = params.fields["random_basis_local"]
+                if rbr:
+                    want["random_basis_remote"] = params.fields["random_basis_remote"]
+            for f in fields:
+                got = getattr(req, f)
+                exp = want[f] if f in want else defaults.get(f, "<no default>")
+                d_ = defaults.get(f)
+                if isinstance(d_, EnumMember) and not (isinstance(got, EnumMember) and got.enum == d_.enum):
+                    bad.setdefault(f"_get_create_request:{f}:coerced-to-enum", f"{label}: LinkLayerCreate.{f} is {got!r}; consumers treat it as a member of {d_.enum.split(':')[-1]} (the argument array holds its integer)")
+                    continue
+                same = (got.enum == exp.enum and got.value == exp.value) if isinstance(got, EnumMember) and isinstance(exp, EnumMember) else (got == exp and isinstance(got, EnumMember) == isinstance(exp, EnumMember))
+                if not same:
+                    bad.setdefault(f"_get_create_request:{f}:carries-the-requested-value", f"{label}: LinkLayerCreate.{f} is {got!r}, expected {exp!r}")
+            if tpn in ("K", "M"):
+                try:
+                    out = C.Interp(repo, ev, sc, None).call_function(qcm, r2q, [req], {})
+                except C.EvalRaise as ex_:
+                    bad.setdefault("request_to_qlink_1_0:converts-every-request", f"{label}: request_to_qlink_1_0 raises {ex_.exc_name} ({ex_}) on the request the executor built")
+                    continue
+                okind = {"K": "ReqCreateAndKeep", "M": "ReqMeasureDirectly"}[tpn]
+                if not (isinstance(out, tuple) and out and out[0] == okind and out[1].get("number") == number and out[1].get("remote_node_id") == 2 and out[1].get("purpose_id") == 7):
+                    bad.setdefault("request_to_qlink_1_0:converts-every-request", f"{label}: the link layer is handed {out!r}")
+                elif tpn == "M" and (out[1].get("random_basis_local") != ("qlink.RandomBasis", want.get("random_basis_local", defaults.get("random_basis_local")).value)):
+                    bad.setdefault("request_to_qlink_1_0:converts-every-request", f"{label}: the link layer is handed random_basis_local={out[1].get('random_basis_local')!r}")
+    except AnalysisError as ex_:
+        ctx.error("C11.C", f"the request path cannot be executed: {ex_}")
+        return
+    ctx.anchor("C11.C", "requests taken through serialize_request -> _get_create_request -> request_to_qlink_1_0", n, 250)
+    if fields is None:
+        ctx.error("C11.C", "no request could be built at all")
+        return
+    enum_fields = [f for f in fields if isinstance(defaults.get(f), EnumMember)]
+    ctx.anchor("C11.C", "LinkLayerCreate fields that are enumeration members", len(enum_fields), 3)
+    for f in fields:
+        if f in enum_fields:
+            nm = f"_get_create_request:{f}:coerced-to-enum"
+            ctx.check("C11.C", nm, nm not in bad, bad.get(nm, ""), ex.loc(g), sample={"field": f})
+        nm = f"_get_create_request:{f}:carries-the-requested-value"
+        ctx.check("C11.C", nm, nm not in bad, bad.get(nm, ""), ex.loc(g), trivial=f not in ("type", "number", "remote_node_id", "purpose_id"), sample={"field": f})
+    for nm, loc in (("request:built-for-every-argument-array", ex.loc(g)), ("request_to_qlink_1_0:converts-every-request", repo.loc(qcm, r2q))):
+        ctx.check("C11.C", nm, nm not in bad, bad.get(nm, ""), loc)
+    n_def = len(defaults)
     ctx.check("C11.C", "LinkLayerCreate:one-default-per-field", n_def == len(fields),
-              f"LinkLayerCreate has {len(fields)} fields but {n_def} defaults; _get_create_request zips arguments, fields and defaults, so the last {len(fields) - (n_def or 0)} field(s) "
-              f"({', '.join(fields[n_def:]) if n_def is not None else '?'}) never reach the request and arrive as their namedtuple default", "netqasm/qlink_compat.py",
-              sample={"fields": len(fields), "defaults": n_def})
-    if isinstance(dval, (tuple, list)) and n_def == len(fields):
-        for f in sorted(uses):
-            if f in fields and f in coerced:
-                d_ = dval[list(fields).index(f)]
-                ok_d = isinstance(d_, EnumMember) and d_.enum.split(":")[-1].split(".")[-1] == str(coerced[f]).split(".")[-1]
-                ctx.check("C11.C", f"LinkLayerCreate:default-of-{f}-is-a-{coerced[f]}", ok_d, f"the default at the position of `{f}` is {d_!r}; it is used when the argument array leaves the field undefined", "netqasm/qlink_compat.py", trivial=True)
-    # arguments array -> kwargs in field order, starting with [remote_node_id, purpose_id]
-    zips = [c for c in A.calls_in(g) if dotted(c.func) == "zip"]
-    gd = A.single_defs(g)
-    ok = bool(zips) and A.norm(A.expand(zips[0].args[1], gd)) == "LinkLayerCreate._fields" and A.norm(zips[0].args[0]) == "args"
-    ctx.check("C11.C", "_get_create_request:arguments-zipped-with-fields-in-order", ok, "the argument list is not zipped with LinkLayerCreate._fields in order", ex.loc(g))
+              f"LinkLayerCreate has {len(fields)} fields but {n_def} defaults; _get_create_request pairs arguments, fields and defaults, so a field without a default "
+              f"never reaches the request", "netqasm/qlink_compat.py", sample={"fields": len(fields), "defaults": n_def})
 
 
 def check_enum_joins(ctx):
@@ -551,36 +630,134 @@ def check_operand_roles(ctx):
     ctx.anchor("C11.O", "create_epr / recv_epr emit sites in the builder", n_sites, 6)
 
 
+def exec_store_ent_info(ctx):
+    """Executor._store_ent_info executed for pair indices 0..3 with a response whose fields are tokens and enumeration members
+    -> None when pair k fills entries [k * OK_FIELDS, (k + 1) * OK_FIELDS) of the request's result array with every field in order and
+    the members lowered to their values; otherwise what is wrong.  Cached per run (shared by C11.R and C12.A)."""
+    cached = getattr(ctx, "_c11_store_ent_info", None)
+    if cached is not None:
+        return cached
+    from .. import circuit as C
+    from ..model import EnumMember
+    repo, ev = ctx.repo, ctx.ev
+    ex = repo.get_class(EXE, "Executor")
+    se = ex.methods.get("_store_ent_info")
+    if se is None:
+        raise AnalysisError("_store_ent_info not found")
+    qcm = repo.module(QC)
+    res = {"slice": None, "content": None}
+
+    class _Log:
+        _nqsa_model = True
+
+        def debug(self, *a_, **k_):
+            return None
+        info = warning = error = debug
+
+    class Arrays:
+        _nqsa_model = True
+
+        def __init__(self):
+            self.stores = []
+
+        def __setitem__(self, k, v):
+            self.stores.append((k, list(v) if isinstance(v, (list, tuple)) else v))
+
+        def __getitem__(self, k):
+            raise C.EvalRaise("RuntimeError", "the result array is read while a response is stored")
+
+    sc0 = C.Scenario()
+    nt = C.Interp(repo, ev, sc0, None).global_name("LinkLayerOKTypeK", qcm)
+    if not isinstance(nt, C.NamedTupleModel):
+        raise AnalysisError("qlink_compat.LinkLayerOKTypeK is not a namedtuple class")
+    nfields = len(nt._fields)
+    rt, bs = qcm.classes["ReturnType"], qcm.classes["BellState"]
+    for k in (0, 1, 2, 3):
+        vals = []
+        for i_, f in enumerate(nt._fields):
+            if f == "type":
+                vals.append(EnumMember(rt.qualname, "OK_K", ev.enum_members(rt)["OK_K"]))
+            elif f == "bell_state":
+                vals.append(EnumMember(bs.qualname, "PSI_MINUS", ev.enum_members(bs)["PSI_MINUS"]))
+            else:
+                vals.append(100 * (k + 1) + i_)
+        resp = nt(*vals)
+        arrays = {0: Arrays(), 1: Arrays()}
+        sc = C.Scenario()
+        sc.max_depth = 20
+        sc.method_overrides = {"_get_app_id": lambda o_, *a_, **k_: 1}
+        o = C.object_from_init(repo, ex, {"_app_arrays": arrays, "_logger": _Log()}, kind="self")
+        cmd = C.Obj(repo.get_class(EXE, "EprCmdData"), {"subroutine_id": 9, "ent_results_array_address": 4, "q_array_address": 2, "request": None, "tot_pairs": 4, "pairs_left": 4 - k})
+        try:
+            C.Interp(repo, ev, sc, ex).call_function(ex.module, se, [cmd, resp, k], {}, self_obj=o)
+        except C.EvalRaise as ex_:
+            res["slice"] = res["slice"] or f"pair {k}: _store_ent_info raises {ex_.exc_name} ({ex_})"
+            continue
+        st = arrays[1].stores + [("app 0", s_) for s_ in arrays[0].stores]
+        want_vals = [v_.value if isinstance(v_, EnumMember) else v_ for v_ in vals]
+        if len(st) != 1 or not (isinstance(st[0][0], tuple) and len(st[0][0]) == 2 and isinstance(st[0][0][1], slice)):
+            res["slice"] = res["slice"] or f"pair {k}: the stores into the application's arrays are {st!r}; expected one store at [results array of the request, k*{nfields}:(k+1)*{nfields}]"
+            continue
+        (addr, sl), got = st[0]
+        if addr != 4 or (sl.start, sl.stop, sl.step) not in ((k * nfields, (k + 1) * nfields, None), (k * nfields, (k + 1) * nfields, 1)):
+            res["slice"] = res["slice"] or f"pair {k}: the response is stored at [{addr}, {sl.start}:{sl.stop}]; expected [4 (the request's results array), {k * nfields}:{(k + 1) * nfields}]"
+        if got != want_vals or any(isinstance(x_, EnumMember) for x_ in (got if isinstance(got, list) else [])):
+            res["content"] = res["content"] or f"pair {k}: the stored entries are {got!r}; expected every field of the response in order with enumeration members lowered to their values: {want_vals!r}"
+    ctx._c11_store_ent_info = res
+    return res
+
+
 def check_result_arrays(ctx):
     repo = ctx.repo
     ex = repo.get_class(EXE, "Executor")
     se = ex.methods.get("_store_ent_info")
     ctx.fn("Executor._store_ent_info")
-    d = A.single_defs(se)
-    ei = d.get("ent_info")
-    ok = isinstance(ei, ast.ListComp) and A.norm(ei.elt) == "entry.valueifisinstance(entry,Enum)elseentry" and A.norm(ei.generators[0].iter) == A.param_names(se)[2] and not ei.generators[0].ifs
-    ctx.check("C11.R", "_store_ent_info:all-fields-in-order-enums-lowered", ok, f"the response is written to the result array as `{src(ei) if ei is not None else None}`; expected every field in order with enum members lowered to their values", ex.loc(se))
+    from .. import circuit as C
+    try:
+        r_ = exec_store_ent_info(ctx)
+        ctx.check("C11.R", "_store_ent_info:all-fields-in-order-enums-lowered", r_["content"] is None and r_["slice"] is None, r_["content"] or r_["slice"] or "", ex.loc(se), sample={"pairs": 4})
+    except AnalysisError as ex_:
+        ctx.error("C11.R", f"_store_ent_info cannot be executed: {ex_}")
     b = repo.get_class("netqasm.sdk.builder", "Builder")
     cs = b.methods.get("_create_ent_info_k_slices")
     if cs is None:
         raise AnalysisError("_create_ent_info_k_slices not found")
     ctx.fn("Builder._create_ent_info_k_slices")
-    sl = [c for c in A.calls_in(cs) if A.call_name(c) == "get_future_slice"]
-    ok = False
-    if len(sl) == 1 and sl[0].args:
-        # pair i reads [i*OK_FIELDS_K, (i+1)*OK_FIELDS_K): the bounds are evaluated for i = 0, 1, 2 with i the variable iterating range(num_pairs)
-        its = [(x.target, x.iter) for x in ast.walk(cs) if isinstance(x, ast.For)] + [(g_.target, g_.iter) for x in ast.walk(cs) if isinstance(x, ast.ListComp) for g_ in x.generators]
-        its = [t_.id for t_, it_ in its if isinstance(t_, ast.Name) and A.norm(it_) == f"range({A.param_names(cs)[1]})"]
-        sb = A.slice_bounds(sl[0].args[0], A.single_defs(cs))
-        nf = ctx.ev.try_eval(ast.Name(id="OK_FIELDS_K", ctx=ast.Load()), b.module)
-        if len(its) == 1 and sb is not None and isinstance(nf, int):
+    # executed for 0..3 pairs against an array that answers get_future_slice(s) with one token per index of s: pair i must be made of
+    # the tokens i*OK_FIELDS_K .. (i+1)*OK_FIELDS_K - 1, in order
+    nf = ctx.ev.try_eval(ast.Name(id="OK_FIELDS_K", ctx=ast.Load()), b.module)
+    bad = None
+    try:
+        if not isinstance(nf, int):
+            raise AnalysisError("OK_FIELDS_K cannot be evaluated")
+
+        class Arr:
+            _nqsa_model = True
+
+            def get_future_slice(self, s):
+                if not isinstance(s, slice):
+                    raise C.EvalRaise("TypeError", f"get_future_slice({s!r})")
+                return [("entry", i_) for i_ in range(*s.indices(10 ** 6))]
+
+            def get_future_index(self, i_):
+                return ("entry", i_)
+
+        for n_pairs in (0, 1, 2, 3):
+            sc = C.Scenario()
+            sc.max_depth = 20
+            bo = C.object_from_init(repo, b, {}, kind="self")
             try:
-                ok = all(G.peval(sb[0], {its[0]: k_, "OK_FIELDS_K": nf}) == k_ * nf and G.peval(sb[1], {its[0]: k_, "OK_FIELDS_K": nf}) == (k_ + 1) * nf for k_ in (0, 1, 2))
-            except Unknown:
-                ok = False
-    mk = [c for c in A.calls_in(cs) if A.call_name(c) == "LinkLayerOKTypeK"]
-    ok = ok and len(mk) == 1 and len(mk[0].args) == 1 and isinstance(mk[0].args[0], ast.Starred)
-    ctx.check("C11.R", "_create_ent_info_k_slices:pair-i-reads-slice-i", ok, "entanglement info of pair i is not LinkLayerOKTypeK(*array[i*OK_FIELDS_K:(i+1)*OK_FIELDS_K])", b.loc(cs))
+                out = C.Interp(repo, ctx.ev, sc, b).call_function(b.module, cs, [n_pairs, Arr()], {}, self_obj=bo)
+            except C.EvalRaise as ex_:
+                bad = bad or f"{n_pairs} pairs: raises {ex_.exc_name} ({ex_})"
+                continue
+            got = [list(x_) if isinstance(x_, tuple) else x_ for x_ in (out if isinstance(out, list) else [out])]
+            want = [[("entry", i_ * nf + j_) for j_ in range(nf)] for i_ in range(n_pairs)]
+            if not isinstance(out, list) or got != want or any(not hasattr(x_, "_fields") for x_ in out):
+                bad = bad or f"{n_pairs} pairs: the entanglement information is built from {got!r}; expected pair i from the entries i*{nf} .. (i+1)*{nf}-1 of the result array, as LinkLayerOKTypeK"
+        ctx.check("C11.R", "_create_ent_info_k_slices:pair-i-reads-slice-i", bad is None, bad or "", b.loc(cs))
+    except AnalysisError as ex_:
+        ctx.error("C11.R", f"_create_ent_info_k_slices cannot be executed: {ex_}")
     # result array sizes
     ar = b.methods.get("_alloc_ent_results_array")
     sizes = {}
